@@ -70,3 +70,17 @@ Print Assumptions C05_safety_as_subpath_constraints_preserves_feasibility.
 Example C05_safety_as_constraints_premises_satisfiable : exists a, sat a (encode_kfd (add_cons (exI 2) exSs)).
 Proof. exact ex_safety_as_constraints_feasible. Qed.
 Print Assumptions C05_safety_as_constraints_premises_satisfiable.
+
+(* the same for the path-cover models (kPathCover / MinPathCover with optimize_with_safety_as_subpath_constraints) *)
+From FP Require Import PathCoverComplete SafeFixCover.
+Theorem C05_cover_safety_as_subpath_constraints_preserves_feasibility :
+  forall (B : path_inst) (ignore : list PathEnc.edge) (rank : node -> nat) (Rm : nat) (Ss : list (list PathEnc.edge)),
+  PathEncProofs.wf_graph (p_graph B) -> p_allow_empty B = false ->
+  (forall u v, In (u, v) (g_edges (p_graph B)) -> (rank u < rank v)%nat) -> (forall v, (rank v <= Rm)%nat) ->
+  (forall c e, In c (p_cons B ++ Ss) -> In e c -> In e (g_edges (p_graph B)) /\ (0 <= elen B e)%Q) ->
+  (p_cov B <= 1)%Q ->
+  (forall P, path_cover B ignore P -> constraints_covered B P ->
+     forall S, In S Ss -> exists i, In i (layers (p_k B)) /\ incl S (EulerProofs1.pairs (P i))) ->
+  ((exists a, sat a (encode_kpc (add_cons_p B Ss) ignore)) <-> (exists a, sat a (encode_kpc B ignore))).
+Proof. exact cover_safety_as_constraints_preserves_feasibility. Qed.
+Print Assumptions C05_cover_safety_as_subpath_constraints_preserves_feasibility.
